@@ -113,6 +113,169 @@ package collect
 //@   ensures[late-root-span-count-only] keep && sp.IsRoot && !i.Config.GetAddCountsToRoot() && i.Config.GetAddSpanCountToRoot() ==> sp.Data.MetaSpanCount == toInt(tr.DescendantCount())
 //@   modifies sp.SampleRate, sp.Data, all(enqN), all(enqLast), all(enqHost), all(enqKey), all(enqDataset), all(enqProbe), all(enqStressed), all(enqRate), all(owns)
 
+// ---- C02 / C05 / C06: the sender goroutine. One span of a decided trace: forwarded exactly once,
+// decorated as configured, with the composed sample rate and (dry run) the would-be decision.
+//@ contract types.(*Trace).SampleRate inline
+//@ contract types.(*Trace).DescendantCount inline
+//@ assume types.(*Trace).SpanCount getter
+// the cache-impact estimate is memoised in the trace; read as a stable value during one ejection
+//@ assume types.(*Trace).CacheImpact getter
+//@ assume types.(*Trace).SpanEventCount getter
+//@ assume types.(*Trace).SpanLinkCount getter
+//@ fragment collect.(*InMemCollector).sendTraces loop 2 body props C02,C05,C06
+//@   requires i != nil && sp != nil && sp.Event != nil && owns(sp.Event) && t.Trace != nil
+// what makeDecision built: the queued record repeats the trace's own decision and rate
+//@   requires[as-decided] t.rate == t.Trace.sampleRate && t.shouldSend == t.Trace.KeepSample
+//@   domain[additional-attributes-are-user-fields] attrsAreUserFields(i.Config.GetAdditionalAttributes())
+//@   domain[rates-in-range] sp.SampleRate < 1<<31 && 1 <= t.Trace.sampleRate && t.Trace.sampleRate < 1<<32
+//@   domain[counts-in-range] len(t.Trace.spans) < 1<<31
+//@   let dry = i.Config.GetIsDryRun()
+//@   let attrs = i.Config.GetAdditionalAttributes()
+//@   ensures[forwarded-exactly-once] enqN(i.Transmission) == old(enqN(i.Transmission)) + 1 && toInt(enqLast(i.Transmission)) == toInt(sp.Event)
+//@   ensures[destination] sp.Dataset == old(sp.Dataset) && sp.APIHost == old(sp.APIHost) && sp.APIKey == t.Trace.APIKey
+//@   ensures[dry-run-carries-the-decision] dry ==> in(sp.Data.memoizedFields, config.DryRunFieldName) && isBool(sp.Data.memoizedFields[config.DryRunFieldName]) && anyBool(sp.Data.memoizedFields[config.DryRunFieldName]) == t.shouldSend
+//@   ensures[dry-run-keeps-client-rate] dry ==> sp.SampleRate == clientRate(old(sp.SampleRate))
+//@   ensures[rate-is-client-times-trace] !dry ==> toInt(sp.SampleRate) == toInt(clientRate(old(sp.SampleRate))) * toInt(t.Trace.sampleRate)
+//@   ensures[hostname] i.hostname != "" ==> sp.Data.MetaRefineryLocalHostname == i.hostname
+//@   ensures[reasons] i.Config.GetAddRuleReasonToTrace() ==> sp.Data.MetaRefineryReason == t.reason && sp.Data.MetaRefinerySendReason == t.sendReason && (t.sampleKey != "" ==> sp.Data.MetaRefinerySampleKey == t.sampleKey)
+//@   ensures[additional-attributes] forall k string :: in(attrs, k) ==> in(sp.Data.memoizedFields, k) && isString(sp.Data.memoizedFields[k]) && anyString(sp.Data.memoizedFields[k]) == attrs[k]
+//@   ensures[root-counts] sp.IsRoot && i.Config.GetAddCountsToRoot() ==> sp.Data.MetaSpanCount == toInt(t.Trace.SpanCount()) && sp.Data.MetaSpanEventCount == toInt(t.Trace.SpanEventCount()) && sp.Data.MetaSpanLinkCount == toInt(t.Trace.SpanLinkCount()) && sp.Data.MetaEventCount == len(t.Trace.spans)
+//@   ensures[root-span-count-only] sp.IsRoot && !i.Config.GetAddCountsToRoot() && i.Config.GetAddSpanCountToRoot() ==> sp.Data.MetaSpanCount == len(t.Trace.spans)
+//@   modifies sp.SampleRate, sp.APIKey, sp.Data, all(enqN), all(enqLast), all(enqHost), all(enqKey), all(enqDataset), all(enqProbe), all(enqStressed), all(enqRate), all(owns)
+
+// send(): a decided trace is queued for the sender exactly once when it is kept or dry run is on,
+// never when it is dropped (dry run off) or already sent.
+//@ ghost sentN(ref) int
+//@ ghost sendN(ref) int
+//@ ghost sendLastReason(ref) string
+//@ ghost sendLastTrace(ref) ref
+//@ contract collect.(*InMemCollector).send props C02,C05,C03
+//@   requires i != nil && trace.Trace != nil
+//@   ghostupdate sendN(i), sendLastReason(i), sendLastTrace(i) :: sendN(i) == old(sendN(i)) + 1 && sendLastReason(i) == trace.sendReason && toInt(sendLastTrace(i)) == toInt(trace.Trace)
+//@   ensures[marks-sent] trace.Trace.Sent
+//@   let dry = i.Config.GetIsDryRun()
+//@   ensures[queued-once-iff-kept-or-dry-run] sentN(i.tracesToSend) == old(sentN(i.tracesToSend)) + ite(!old(trace.Sent) && (trace.KeepSample || dry), 1, 0)
+//@   modifies trace.Trace.Sent, sentN(i.tracesToSend), field(types.Event, Data.MetaSpanEventCount), field(types.Event, Data.MetaSpanLinkCount), field(types.Event, Data.MetaSpanCount), field(types.Event, Data.MetaEventCount), field(types.Event, Data.memoizedFields)
+
+// ---- C01 / C02 / C03 / C07: the worker decides each buffered trace once.
+// makeDecision: refuses a trace already sent; otherwise asks the sampler configured for the trace's
+// destination once, stores the answer in the trace, records it in the decision cache exactly once, and
+// returns a record that repeats it together with the send reason it was given.
+//@ assume types.(*Payload).MemoizeFields
+//@   modifies p.memoizedFields, p.missingFields
+//@ contract types.(*Trace).ID inline
+//@ contract types.(*Trace).GetSpans inline
+//@ contract collect.(*CollectorWorker).makeDecision props C01,C02,C03,C07
+//@   requires cl != nil && cl.parent != nil && trace != nil
+//@   requires[spans-present] forall k int :: 0 <= k && k < len(trace.spans) ==> trace.spans[k] != nil && trace.spans[k].Event != nil
+//@   let sc = cl.sampleCache
+//@   ensures[already-sent-is-refused] old(trace.Sent) ==> err != nil && recN(sc) == old(recN(sc)) && trace.KeepSample == old(trace.KeepSample) && trace.sampleRate == old(trace.sampleRate)
+//@   ensures[decided-and-recorded-once] !old(trace.Sent) ==> err == nil && recN(sc) == old(recN(sc)) + 1 && recID(sc) == trace.TraceID && recKept(sc) == trace.KeepSample && recRate(sc) == toInt(trace.sampleRate)
+//@   ensures[record-repeats-the-decision] err == nil ==> toInt(s.Trace) == toInt(trace) && s.shouldSend == trace.KeepSample && s.rate == trace.sampleRate && s.sendReason == sendReason
+//@   ensures[not-marked-sent-yet] trace.Sent == old(trace.Sent)
+//@   loop 1 invariant cl != nil && trace != nil && trace.Sent == old(trace.Sent) && recN(sc) == old(recN(sc)) && trace.spans == old(trace.spans)
+//@   modifies trace.sampleRate, trace.KeepSample, cl.datasetSamplers, all(recN), all(recKept), all(recID), all(recRate), field(types.Event, Data.memoizedFields), field(types.Event, Data.missingFields)
+
+// AddSpan appends the span to the trace (verified here; it is in package types).
+//@ contract types.(*Trace).AddSpan props C01,C03
+//@   arith math
+//@   requires t != nil && sp != nil && sp.Event != nil
+//@   ensures[appended] len(t.spans) == old(len(t.spans)) + 1 && toInt(t.spans[old(len(t.spans))]) == toInt(sp) && (forall k int :: 0 <= k && k < old(len(t.spans)) ==> toInt(t.spans[k]) == toInt(old(t.spans)[k]))
+//@   ensures[identity-and-deadline-kept] t.TraceID == old(t.TraceID) && t.SendBy == old(t.SendBy) && t.Sent == old(t.Sent) && t.KeepSample == old(t.KeepSample) && t.RootSpan == old(t.RootSpan) && t.APIKey == old(t.APIKey) && t.Dataset == old(t.Dataset)
+//@   modifies t.spans, t.DataSize, t.totalImpact, t.Environment, sp.ArrivalTime, sp.Event.dataSize
+
+// processSpan: one arriving span.
+//  - its trace is neither buffered nor remembered: a new trace is buffered, deadline TraceTimeout from now
+//  - its trace is buffered and undecided: the span joins it; a root span pulls the deadline in to SendDelay
+//    from now, exceeding SpanLimit pulls it in to now; the deadline never moves out
+//  - its trace was decided: the span follows the recorded decision (dealWithSentTrace), it is not buffered
+// Buffered traces are undecided (worker invariant: decided traces leave the buffer in the same step).
+//@ spec orDefault(d time.Duration, def time.Duration) time.Duration := ite(d == 0, def, d)
+//@ spec buffered(c cache.Cache, id string) *types.Trace := asPtr(cached(c, id), *types.Trace)
+//@ contract collect.(*CollectorWorker).processSpan props C01,C03
+//@   arith math
+//@   requires cl != nil && cl.parent != nil && sp != nil && sp.Event != nil && owns(sp.Event)
+//@   let tr0 = buffered(cl.cache, sp.TraceID)
+//@   requires[buffered-traces-are-undecided] tr0 != nil ==> !tr0.Sent
+//@   requires[buffer-is-keyed-by-trace-id] tr0 != nil ==> tr0.TraceID == sp.TraceID
+//@   domain[additional-attributes-are-user-fields] attrsAreUserFields(cl.parent.Config.GetAdditionalAttributes())
+//@   domain[rates-in-range] sp.SampleRate < 1<<31
+//@   let found = result2of(cl.sampleCache.CheckSpan(sp))
+//@   let rec = result0of(cl.sampleCache.CheckSpan(sp))
+//@   domain[recorded-rates-in-range] found ==> rec != nil && 1 <= rec.Rate() && rec.Rate() < 1<<32 && rec.SpanCount() < 1<<62 && rec.SpanEventCount() < 1<<62 && rec.SpanLinkCount() < 1<<62 && rec.DescendantCount() < 1<<62
+//@   let now = clockNow(cl.parent.Clock)
+//@   let tcfg = cl.parent.Config.GetTracesConfig()
+//@   let dry = cl.parent.Config.GetIsDryRun()
+//@   let T = cl.parent.Transmission
+//@   let c = cl.cache
+//@   let id = sp.TraceID
+//@   let n0 = ite(tr0 == nil, 0, len(tr0.spans))
+//@   domain[counts-in-range] n0 < 1<<31
+//@   let overLimit = tcfg.SpanLimit > 0 && n0 + 1 > toInt(tcfg.SpanLimit)
+//@   let pull = ite(overLimit, now, now.Add(orDefault(tcfg.GetSendDelay(), 2 * time.Second)))
+//@   let deadline0 = ite(tr0 == nil, now.Add(orDefault(tcfg.GetTraceTimeout(), 60 * time.Second)), tr0.SendBy)
+//@   ensures[decided-trace-span-follows-the-record] tr0 == nil && found ==> enqN(T) == old(enqN(T)) + ite(rec.Kept() || dry, 1, 0) && buffered(c, id) == nil
+//@   ensures[undecided-span-is-buffered-not-forwarded] !(tr0 == nil && found) ==> enqN(T) == old(enqN(T)) && buffered(c, id) != nil && len(buffered(c, id).spans) == n0 + 1 && toInt(buffered(c, id).spans[n0]) == toInt(sp) && buffered(c, id).TraceID == id && !buffered(c, id).Sent
+//@   ensures[new-trace-is-fresh] tr0 == nil && !found ==> isFresh(buffered(c, id)) && buffered(c, id).ArrivalTime == now
+//@   ensures[joins-its-trace] tr0 != nil ==> buffered(c, id) == tr0
+//@   ensures[deadline] !(tr0 == nil && found) ==> buffered(c, id).SendBy == ite((sp.IsRoot || overLimit) && deadline0.After(pull), pull, deadline0)
+//@   ensures[root-remembered] !(tr0 == nil && found) && sp.IsRoot ==> toInt(buffered(c, id).RootSpan) == toInt(sp)
+//@   ensures[other-traces-untouched] forall k string :: k != id ==> toInt(cached(c, k)) == toInt(old(cached(c, k)))
+//@   modifies cl.localSpanProcessed, cl.localSpansWaiting, sp.SampleRate, sp.Data, sp.ArrivalTime, sp.Event.dataSize, all(cached), all(enqN), all(enqLast), all(enqHost), all(enqKey), all(enqDataset), all(enqProbe), all(enqStressed), all(enqRate), all(owns), field(types.Trace, spans), field(types.Trace, DataSize), field(types.Trace, totalImpact), field(types.Trace, Environment), field(types.Trace, SendBy), field(types.Trace, RootSpan)
+
+// A send tick takes expired traces from the buffer once, as of the tick's time, at most MaxExpiredTraces.
+//@ contract collect.(*CollectorWorker).sendExpiredTracesInCache props C03
+//@   arith math
+//@   requires cl != nil && cl.parent != nil
+//@   let c = cl.cache
+//@   let max = cl.parent.Config.GetTracesConfig().MaxExpiredTraces
+//@   domain[max-fits] max < 1<<31
+//@   ensures[one-take-per-tick-bounded] takeN(c) == old(takeN(c)) + 1 && takeMax(c) == toInt(max) && takeNow(c) == now
+//@   loop 1 invariant[take] takeN(c) == old(takeN(c)) + 1 && takeMax(c) == toInt(max) && takeNow(c) == now && cl != nil && cl.parent != nil
+//@   loop 1 invariant[traces] forall j int :: 0 <= j && j < len(traces) ==> traces[j] != nil && spansPresent(traces[j])
+//@   modifies all(recN), all(recKept), all(recID), all(recRate), all(sendN), all(sendLastReason), all(sendLastTrace), all(sentN), all(cached), all(takeN), all(takeMax), all(takeNow), cl.datasetSamplers, field(types.Trace, Sent), field(types.Trace, sampleRate), field(types.Trace, KeepSample), field(types.Event, Data.MetaSpanEventCount), field(types.Event, Data.MetaSpanLinkCount), field(types.Event, Data.MetaSpanCount), field(types.Event, Data.MetaEventCount), field(types.Event, Data.memoizedFields), field(types.Event, Data.missingFields)
+
+// One expired trace of a send tick: decided once, with the documented send reason, and handed to send once.
+//@ spec spansPresent(t *types.Trace) bool := forall k int :: 0 <= k && k < len(t.spans) ==> t.spans[k] != nil && t.spans[k].Event != nil
+//@ spec expiryReason(hasRoot bool, n int, limit int) string := ite(hasRoot, TraceSendGotRoot, ite(limit > 0 && n > limit, TraceSendSpanLimit, TraceSendExpired))
+//@ fragment collect.(*CollectorWorker).sendExpiredTracesInCache loop 1 body props C03,C02
+//@   arith math
+//@   requires cl != nil && cl.parent != nil && t != nil && spansPresent(t)
+//@   domain[counts-in-range] len(t.spans) < 1<<31
+//@   let sc = cl.sampleCache
+//@   let par = cl.parent
+//@   ensures[decided-once-with-the-documented-reason] !old(t.Sent) ==> recN(sc) == old(recN(sc)) + 1 && recID(sc) == t.TraceID && sendN(par) == old(sendN(par)) + 1 && toInt(sendLastTrace(par)) == toInt(t) && sendLastReason(par) == expiryReason(t.RootSpan != nil, len(t.spans), toInt(spanLimit)) && t.Sent
+//@   ensures[already-sent-is-skipped] old(t.Sent) ==> recN(sc) == old(recN(sc)) && sendN(par) == old(sendN(par))
+//@   modifies all(recN), all(recKept), all(recID), all(recRate), all(sendN), all(sendLastReason), all(sendLastTrace), all(sentN), cl.datasetSamplers, t.Sent, t.sampleRate, t.KeepSample, field(types.Event, Data.MetaSpanEventCount), field(types.Event, Data.MetaSpanLinkCount), field(types.Event, Data.MetaSpanCount), field(types.Event, Data.MetaEventCount), field(types.Event, Data.memoizedFields), field(types.Event, Data.missingFields)
+
+// ---- C07: memory-pressure ejection. Heaviest first; each visited trace is decided with the memory
+// reason and handed to send; the visit stops as soon as the released size exceeds the request;
+// every decided trace leaves the buffer.
+//@ fragment collect.(*CollectorWorker).sendTracesEarly loop 1 body props C07,C02
+//@   arith math
+//@   requires cl != nil && cl.parent != nil && trace != nil && spansPresent(trace)
+//@   let sc = cl.sampleCache
+//@   let par = cl.parent
+//@   ensures[decided-with-the-memory-reason] !old(trace.Sent) ==> recN(sc) == old(recN(sc)) + 1 && recID(sc) == trace.TraceID && sendN(par) == old(sendN(par)) + 1 && toInt(sendLastTrace(par)) == toInt(trace) && sendLastReason(par) == TraceSendEjectedMemsize && trace.Sent
+//@   ensures[released-size-counted] !old(trace.Sent) ==> totalDataSizeSent == old(totalDataSizeSent) + trace.DataSize && in(tracesSent, trace.TraceID)
+//@   ensures[already-sent-is-skipped] old(trace.Sent) ==> recN(sc) == old(recN(sc)) && sendN(par) == old(sendN(par)) && totalDataSizeSent == old(totalDataSizeSent)
+//@   modifies all(recN), all(recKept), all(recID), all(recRate), all(sendN), all(sendLastReason), all(sendLastTrace), all(sentN), cl.datasetSamplers, trace.Sent, trace.sampleRate, trace.KeepSample, field(types.Event, Data.MetaSpanEventCount), field(types.Event, Data.MetaSpanLinkCount), field(types.Event, Data.MetaSpanCount), field(types.Event, Data.MetaEventCount), field(types.Event, Data.memoizedFields), field(types.Event, Data.missingFields)
+
+//@ contract collect.(*CollectorWorker).sendTracesEarly props C07
+//@   arith math
+//@   requires cl != nil && cl.parent != nil
+//@   requires[a-positive-amount-is-requested] sendEarlyBytes >= 0
+//@   let c = cl.cache
+//@   requires[buffered-traces-are-undecided] forall k string :: toInt(cached(c, k)) != 0 ==> !buffered(c, k).Sent && buffered(c, k).TraceID == k
+//@   ensures[decided-traces-leave-the-buffer] forall k string :: toInt(cached(c, k)) != 0 ==> !buffered(c, k).Sent
+//@   loop 1 invariant[visit] cl != nil && cl.parent != nil && toInt(c) == toInt(cl.cache) && (forall j int :: 0 <= j && j < len(allTraces) ==> allTraces[j] != nil && spansPresent(allTraces[j]) && toInt(cached(c, allTraces[j].TraceID)) == toInt(allTraces[j]))
+//@   loop 1 invariant[heaviest-first] forall a int, b int :: 0 <= a && a < b && b < len(allTraces) ==> allTraces[a].CacheImpact(traceTimeout) >= allTraces[b].CacheImpact(traceTimeout)
+//@   loop 1 invariant[stop-when-enough] totalDataSizeSent <= sendEarlyBytes
+//@   loop 1 invariant[sent-are-listed] forall k string :: toInt(cached(c, k)) != 0 && buffered(c, k).Sent ==> in(tracesSent, k)
+//@   loop 1 invariant[buffer-unchanged] forall k string :: toInt(cached(c, k)) == toInt(old(cached(c, k)))
+//@   loop 1 exits[stops-only-when-enough-or-empty] totalDataSizeSent > sendEarlyBytes || iter == len(allTraces)
+//@   modifies cl.lastCacheSize, all(recN), all(recKept), all(recID), all(recRate), all(sendN), all(sendLastReason), all(sendLastTrace), all(sentN), all(cached), cl.datasetSamplers, field(types.Trace, Sent), field(types.Trace, sampleRate), field(types.Trace, KeepSample), field(types.Event, Data.MetaSpanEventCount), field(types.Event, Data.MetaSpanLinkCount), field(types.Event, Data.MetaSpanCount), field(types.Event, Data.MetaEventCount), field(types.Event, Data.memoizedFields), field(types.Event, Data.missingFields)
+
 // ---- C15: stress relief switches with hysteresis on a bounded stress level
 
 //@ contract collect.clamp props C15
